@@ -76,6 +76,89 @@ CHECKS = {
         "(dyadic / small-denominator thresholds only); the clock hour of window policies is read from the host.",
    technique="Lean 4 proof (decision logic stated outright + timer-gap lemma) + timed observation of the real background tasks",
    ref="DESIGN.md §5 C18"),
+ "C02": dict(
+   text="Lean theorems about the executable store model: for every state reachable by put/delete/reopen under any configuration, the startup scan of the directory rebuilds an index under which every key reads "
+        "exactly as before the close (deleted keys stay deleted), and reopening is idempotent; proof via 'the scan = last record wins' over all records in (file id, position) order. Tied to the real store "
+        "by histories with overwrites, deletes of present/absent keys, re-sets, >=12 files, reopen cycles at arbitrary positions; reads, index and counters compared with the model and a plain map.",
+   note=COMMON_NOTE + "Files at record granularity (byte layout Store/Codec.lean validated through trace hashes and crash images); directory listing order and numeric id parsing are modelled by an ascending sort.",
+   technique="Lean 4 proof (recovery invariant: rebuilt index = index, induction over operations) + differential correspondence with the real store",
+   ref="DESIGN.md §5 C02"),
+ "C05": dict(
+   text="Lean theorems: a merge pass with ANY selected set below the active id and ANY KeyDir iteration order leaves every key reading as before (c05_now, full strength); after a following restart the same "
+        "holds under the explicit hypothesis NoHazard (no deleted key whose deciding tombstone is merged away while an older value survives in an unselected file) - c05_restart_partial - and the full statement "
+        "is refuted by a concrete counterexample that is also replayed on the real code (known finding D3). Tied to the real store by histories with merges under all threshold presets, reads after merge, "
+        "after a restart right after the merge (copy of the directory) and after reopen.",
+   note=COMMON_NOTE + "KNOWN FINDING D3 (known_findings.json): the unchanged code violates the restart half in exactly the NoHazard-negated class; the check classifies that class from the model (hazard query) and reports anything else.",
+   technique="Lean 4 proof (merge refinement + recovery invariant under NoHazard, counterexample by decide) + differential correspondence with the real store",
+   ref="DESIGN.md §5 C05"),
+ "C12": dict(
+   text="Lean theorem: for reachable states (merges included) opening the directory with all hint files removed recovers an index under which every key reads the same as with them (hint files list exactly the "
+        "records of their data files, which hold no tombstones). Tied to the real store: after every merge/reopen a copy of the directory is opened with and without *.hint and all keys compared, also with the model.",
+   note=COMMON_NOTE + "Crash-free histories, as the property states.",
+   technique="Lean 4 proof (hint-exactness invariant) + differential correspondence with the real store",
+   ref="DESIGN.md §5 C12"),
+ "C13": dict(
+   text="Lean theorems: a merge never increases the total data-file size; when every non-empty file is selected the size afterwards equals the total length of the live entries (= a fresh store holding the live "
+        "pairs, entry length being independent of the timestamp); a repeated full merge keeps that size. Tied to the real store: directory sizes before/after every merge, eligibility recomputed from the "
+        "configured thresholds and ground-truth counters, selected sets/sizes/index/counters compared with the model.",
+   note=COMMON_NOTE + "f64 fragmentation thresholds compared as rationals (small-denominator thresholds only).",
+   technique="Lean 4 proof (size accounting over the merge loop) + differential correspondence with the real store",
+   ref="DESIGN.md §5 C13"),
+ "C19": dict(
+   text="Lean theorems: in every reachable state of the store model the per-file counters equal ground truth recomputed from the records and the index (live = keys whose current entry is in the file, dead / dead "
+        "bytes = all other entries), and no counter ever underflows (the model's sticky `bad` flag is never set). Tied to the real store: after every mutating op the dumped counters are compared with ground "
+        "truth recomputed by the harness' own decoder from the real files, and with the model.",
+   note=COMMON_NOTE + "Crash-free, fault-free histories, as the property states.",
+   technique="Lean 4 proof (accounting invariant by induction over operations) + differential correspondence with the real store",
+   ref="DESIGN.md §5 C19"),
+ "C14": dict(
+   text="Lean theorems over the call traces the model emits (the model's call alphabet is create/append/fsync/unlink only): every created id is above every id ever present (merge outputs above the active id, "
+        "new active id above the outputs, reopen's max+1 fresh because the largest id ever used is still on disk); every append targets a file created in the same life and not yet removed; a data file "
+        "receives an entry only while its size is within max_file_size. Tied to the real store by the LD_PRELOAD recorder: open flags must be O_CREAT|O_EXCL|O_APPEND, no rename/truncate/pwrite/writable "
+        "mmap, the same monitor runs on the real trace across lives incl. restored crash images, and the logical trace must equal the model's.",
+   note=COMMON_NOTE + "The shim observes libc-level calls of this process only; O_APPEND semantics of the kernel are trusted.",
+   technique="Lean 4 proof (trace invariants) + LD_PRELOAD trace monitor and trace equality with the model",
+   ref="DESIGN.md §5 C14"),
+ "C03": dict(
+   text="Lean theorems (record level + codec law): every byte-granular cut of the calls of a put/delete leaves a directory whose startup scan yields the old or the new map and never fails; merge cuts under "
+        "NoHazard. Tied to the real store: each workload runs once under the recorder (trace must equal the model's), then crash images at every call boundary and inside appends are opened by the real "
+        "code and by the model: must open, every key reads as acknowledged (+/- the op in flight); sampled images are restored in place and the workload continues through writes, restart, merge, restart.",
+   note=COMMON_NOTE + "The property's own failure model (a killed process leaves a prefix of its system calls; POSIX append) is trusted. KNOWN FINDING D3 applies to workloads whose merge drops a shadowing tombstone.",
+   technique="Lean 4 proof (cut lemmas per operation over the recovery invariant) + crash-image enumeration against real code and model",
+   ref="DESIGN.md §5 C03"),
+ "C09": dict(
+   text="Lean theorems: with sync=always every acknowledged record lies below the fsynced length of its file; merge outputs are fsynced before the first unlink, hint entries beyond the data file are ignored. "
+        "Tied to the real store: trace equality incl. every fsync, and power-loss images (each file independently cut back to its synced length / kept / in between) opened by real code and model.",
+   note=COMMON_NOTE + "The property's failure model (what fsync guarantees; creations/removals durable) is trusted. KNOWN FINDING D3 applies.",
+   technique="Lean 4 proof (durability invariant over traces) + power-loss image enumeration against real code and model",
+   ref="DESIGN.md §5 C09"),
+ "C20": dict(
+   text="Lean theorems over a fault-aware writer model of the repaired code (fault kinds: append of a small / large entry, fsync, create on rollover): the faulty operation reports an error, the invariant is kept, "
+        "no other key changes, the failed key is unchanged in memory, and later fault-free operations still refine the map. Tied to the real store: one ENOSPC/EIO per run at (sampled) every physical "
+        "open/write/fsync/unlink position, all keys read after every op and after a final reopen.",
+   note=COMMON_NOTE + "KNOWN FINDING D12 (faults inside a merge pass). What std's BufWriter retains after a failed write is modelled from observation.",
+   technique="Lean 4 proof (fault-aware model keeps the refinement invariant) + exhaustive single-fault injection by LD_PRELOAD",
+   ref="DESIGN.md §5 C20"),
+ "C08": dict(
+   text="Lean theorems over the index-level model: every well-formed frame is encoded without hitting unimplemented!, parse(encode f ++ rest) = f with the full length and check agrees; strict prefixes are "
+        "incomplete; any segmentation of a concatenation of encodings is decoded to the same frames, and a stream ending inside a frame is an error. Tied to the real Connection over a scripted stream: "
+        "type-directed frames up to 140 KB, every prefix, all-at-once / byte-at-a-time / every-cut / random segmentations, large frames followed by buffered frames.",
+   note=COMMON_NOTE + "String::from_utf8 = validUtf8 (differential-tested); tokio's read_buf may split a segment further (covered: the theorem holds for every segmentation).",
+   technique="Lean 4 proof (codec round trip, prefix and stream theorems) + differential correspondence with the real Connection",
+   ref="DESIGN.md §5 C08"),
+ "C04": dict(
+   text="Lean theorems over a concurrent store LTS (chunked record writes, index publish after the last chunk, readers mapping files at arbitrary moments, remap test, shard guards, merge re-point before unlink, "
+        "reader pool): no panic state is reachable (and one IS reachable with the old remap test), pool accounting, linearizability via linearization points. Tied to the real store by forced schedules "
+        "(schedule points + pause before a chosen write(2)) for the windows named in the property and by free-running stress with an exact per-key linearizability search, hang watchdog and pool check.",
+   note=COMMON_NOTE + "PARTIAL: memory-model effects below the lock/atomic abstraction (DashMap, crossbeam ArrayQueue, parking_lot), mmap coherence and OS scheduler fairness are trusted; the schedule space of the real code is sampled.",
+   technique="Lean 4 proof (invariants + linearization points on a labelled transition system) + forced schedules and linearizability-checked stress",
+   ref="DESIGN.md §5 C04"),
+ "C11": dict(
+   text="Lean meta-theorem: widening every operation's interval to (request sent, reply received) and adding per-connection order preserves linearizability, so the client-visible history is linearizable whenever "
+        "the store history is (C04). Tied to the real server: 2-8 concurrent TCP clients with forced merges and rollovers, histories checked per key; forced interleavings through TCP using the store's schedule points.",
+   note=COMMON_NOTE + "PARTIAL: as C04, plus tokio's blocking pool and kernel TCP.",
+   technique="Lean 4 proof (linearizability meta-theorem) + linearizability-checked concurrent client histories",
+   ref="DESIGN.md §5 C11"),
 }
 NOT_YET = "check under construction in this session; will be claimed once its machinery is committed"
 def main():
@@ -86,14 +169,14 @@ def main():
                    "baseline_off_cmd": "cd /repo && cargo test --workspace --no-fail-fast --offline",
                    "source_commits": HOOK_COMMITS, "add_only": True},
          "engines": [
-            {"name": "lean-model", "path": "lean/", "serves_properties": sorted(CHECKS), "kind_free_text": "Lean 4 model + theorems + compiled line-protocol driver"},
-            {"name": "bcharness", "path": "harness/", "serves_properties": sorted(CHECKS), "kind_free_text": "Rust harness executing the real code on the same line protocol"},
+            {"name": "lean-model", "path": "lean/", "serves_properties": sorted(p for p in CHECKS if os.path.exists(os.path.join(V, "lean", "BitcaskVerif", "Props", p + ".lean"))), "kind_free_text": "Lean 4 model + theorems + compiled line-protocol driver"},
+            {"name": "bcharness", "path": "harness/", "serves_properties": sorted(p for p in CHECKS if os.path.exists(os.path.join(V, "lean", "BitcaskVerif", "Props", p + ".lean"))), "kind_free_text": "Rust harness executing the real code on the same line protocol"},
             {"name": "iotrace", "path": "iotrace/iotrace.c", "serves_properties": [p for p in sorted(CHECKS) if p in ("C03","C09","C14","C20","C04","C17","C18")], "kind_free_text": "LD_PRELOAD file-system call recorder / fault injector"}],
          "checks": [], "not_applicable": [],
          "notes": "All checks: python3 tools/check.py Cxx --tier quick|thorough (VERIF_SEED / VERIF_TIER honoured). Known/fixed findings: known_findings.json."}
     for p in props:
         pid = p["id"]
-        if pid in CHECKS:
+        if pid in CHECKS and os.path.exists(os.path.join(V, "lean", "BitcaskVerif", "Props", pid + ".lean")) and os.path.exists(os.path.join(V, "lean", "BitcaskVerif", "Audit", pid + ".lean")):
             c = CHECKS[pid]
             m["checks"].append({
                 "property_id": pid,
